@@ -1,5 +1,6 @@
 #!/usr/bin/env python3
 """Regenerates MANIFEST.json from checks/registry.py (claimed checks) and properties.jsonl (the rest -> not_applicable)."""
+import importlib
 import json
 import os
 import subprocess
@@ -7,6 +8,7 @@ import sys
 
 HERE = os.path.dirname(os.path.dirname(os.path.abspath(__file__)))
 sys.path.insert(0, HERE)
+sys.path.insert(0, os.path.join(HERE, "lib"))
 from checks import registry  # noqa: E402
 
 props = [json.loads(l) for l in open(os.path.join(HERE, "properties.jsonl"))]
@@ -27,25 +29,32 @@ m = {
         "source_commits": hook_commits,
         "add_only": True,
     },
-    "engines": registry.ENGINES,
+    "engines": [],
     "checks": [],
     "not_applicable": [],
     "notes": "See DESIGN.md. exit 0 ok / 1 VIOLATION / 2 tool trouble. known_findings.json lists recorded defects.",
 }
 for p in props:
     pid = p["id"]
-    c = registry.CHECKS.get(pid)
+    c = None
+    if os.path.exists(os.path.join(HERE, "checks", pid.lower() + ".py")):
+        c = getattr(importlib.import_module("checks." + pid.lower()), "MANIFEST", None)
     if c is None:
-        m["not_applicable"].append({"property_id": pid, "reason": registry.NOT_YET.get(
+        m["not_applicable"].append({"property_id": pid, "reason": registry.NOT_CLAIMED.get(
             pid, "no check registered yet: the specification module for this property is not built at this commit")})
         continue
+    eng = next((e for e in m["engines"] if e["name"] == c["engine"]["name"]), None)
+    if eng is None:
+        eng = dict(c["engine"], serves_properties=[])
+        m["engines"].append(eng)
+    eng["serves_properties"].append(pid)
     m["checks"].append({
         "property_id": pid,
         "quick_cmd": "./check %s --tier quick" % pid,
         "thorough_cmd": "./check %s --tier thorough" % pid,
         "evidence_file": "evidence/%s.json" % pid,
         "replay_cmd_template": "./check %s --replay {path}" % pid,
-        "engine": c["engine"],
+        "engine": c["engine"]["name"],
         "level_claimed": {"category": c["category"], "text": c["text"], "design_ref": c["design_ref"]},
         "level_note": c["note"],
         "technique": c["technique"],
